@@ -124,6 +124,56 @@ type ClientOp struct {
 	Conf      raft.Configuration
 	Gone      bool // client gave up (timeout) before resolution
 	SendClock int  // network send clock when the operation was invoked
+	// membership operations: the submitter at invocation and at resolution
+	SubLeader   bool
+	SubTerm     uint64
+	SubReflects bool // the committed configuration already reflected the change
+	ResSeen     bool
+	ResTerm     uint64
+	ResReflects bool
+}
+
+// reflects reports whether the submitter's committed configuration contains
+// the change a membership operation asks for.
+func (c *Cluster) reflects(op *ClientOp) (bool, uint64, bool, bool) {
+	v, ok := c.View(op.Node)
+	if !ok {
+		return false, 0, false, false
+	}
+	if !v.HasCommitted {
+		return false, v.Term, v.State == raft.Leader, true
+	}
+	_, member := v.Committed.Members[op.TargetID]
+	want := op.Kind == "add"
+	return member == want && (!want || v.Committed.IsVoter[op.TargetID] == op.Voter), v.Term, v.State == raft.Leader, true
+}
+
+// NoteSubmission records the submitter's view when a membership operation is invoked.
+func (c *Cluster) NoteSubmission(op *ClientOp) {
+	op.SubReflects, op.SubTerm, op.SubLeader, _ = c.reflects(op)
+}
+
+// RefusedCommittedChange returns a membership operation whose future resolved
+// with an error although the change it asked for became part of the
+// submitter's committed configuration during the term in which the submitter
+// accepted it as leader, and no other request of that node asked for the same
+// change.
+func (c *Cluster) RefusedCommittedChange() *ClientOp {
+	for _, op := range c.Ops {
+		if op.CfFut == nil || !op.Resolved || op.Err == nil || !op.ResSeen || !op.SubLeader || op.SubReflects || !op.ResReflects || op.ResTerm != op.SubTerm {
+			continue
+		}
+		unique := true
+		for _, o := range c.Ops {
+			if o != op && o.Node == op.Node && o.Kind == op.Kind && o.TargetID == op.TargetID {
+				unique = false
+			}
+		}
+		if unique {
+			return op
+		}
+	}
+	return nil
 }
 
 type ArmSpec struct {
@@ -442,6 +492,7 @@ func (c *Cluster) pollFutures() {
 		} else if op.CfFut != nil {
 			if conf, err, ok := raft.VerifPollConfiguration(op.CfFut); ok {
 				op.Resolved, op.Conf, op.Err = true, conf, err
+				op.ResReflects, op.ResTerm, _, op.ResSeen = c.reflects(op)
 			}
 		}
 		if op.Resolved {
@@ -675,6 +726,7 @@ func (c *Cluster) Inject1(e Event) error {
 		}
 		c.B.Members--
 		op := &ClientOp{ID: len(c.Ops), Kind: e.K, Node: e.N, Target: e.A, Voter: e.S == "voter", TargetID: c.Nodes[e.A].ID}
+		c.NoteSubmission(op)
 		c.Ops = append(c.Ops, op)
 		c.Hist = append(c.Hist, fmt.Sprintf("i%d", op.ID))
 		r := n.R
